@@ -11,6 +11,7 @@ import GasolVerif.Models.EncodingIO
 import GasolVerif.Models.Cmp
 import GasolVerif.Models.MinLen
 import GasolVerif.Models.Realize
+import GasolVerif.Models.JsonItem
 open GasolVerif
 
 def parseWords? (s : String) : Option (List Word) :=
@@ -92,6 +93,7 @@ def handle (line : String) : String :=
   | ["ENC", bs, b0, lim, mode, term, instrs, src, tgt, terms, memenc, pairs, ls, ledges, wts, emp] =>
     Enc.handleEnc bs b0 lim mode term instrs src tgt terms memenc pairs ls ledges wts emp
   | ["CMP", so, sp, pairs] => Cmp.handleCmp so sp pairs
+  | ["JSONITEMS", p0, items] => Json.handleItems p0 items
   | _ => "error:unknown-request"
 
 partial def loop (h : IO.FS.Stream) (out : IO.FS.Stream) : IO Unit := do
